@@ -841,7 +841,7 @@ let node_case (line : string) : string =
     let connect = (match words head with ["node"; c] -> c = "1" | _ -> failwith "bad node head") in
     let cfg = mk_cfg owned_arms [] [] in
     let st = ref (node_init node_name_bytes (n_of_int 7) connect) in
-    let pids = ref [] and refs = ref [] and sent_calls = ref [] and ncalls = ref 0 and printed = ref [] and burst = ref false in
+    let pids = ref [] and refs = ref [] and sent_calls = ref [] and ncalls = ref 0 and printed = ref [] and burst = ref false and unwrap = ref [] in
     let do_op o = let (st', u) = step cfg !st o in st := st'; u in
     let pid_arg (t : toks) : pidr =
       (match t.l with
@@ -868,7 +868,9 @@ let node_case (line : string) : string =
           let k = (let s = next t in int_of_string (String.sub s 1 (String.length s - 1))) in
           okerr (do_op (ODemonitor (a, b, List.nth !refs k)))
       | "rpc" ->
-          let short = next t = "S" in
+          let variant = next t in
+          let short = variant = "S" in
+          unwrap := !unwrap @ [variant = "X" || variant = "Y"];
           let m = bytes_of_hex (next t) in let f = bytes_of_hex (next t) in
           let n = int_of_string (next t) in
           let rec many n = if n = 0 then [] else let x = rd_term cmp_owned t in x :: many (n - 1) in
@@ -913,7 +915,13 @@ let node_case (line : string) : string =
             if List.mem i !printed then None else
             (match List.find_opt (fun (j, _) -> int_of_n j = i) !st.n_results with
              | Some (_, r) -> printed := i :: !printed;
-                 Some (match r with RReply b -> "reply " ^ term_str b | RTimeout -> "timeout" | RNotConnected -> "notconnected" | RSendFailed -> "sendfailed")
+                 Some (match r with
+                       | RReply b when List.nth !unwrap i ->
+                           (* rpc_call / rpc_call_with_timeout: the {rex, Result} wrapper removed *)
+                           (match b with
+                            | TTuple [TAtom a; x] when a = List.map (fun c -> n_of_int (Char.code c)) ['r';'e';'x'] -> "reply " ^ term_str x
+                            | _ -> "badreply")
+                       | RReply b -> "reply " ^ term_str b | RTimeout -> "timeout" | RNotConnected -> "notconnected" | RSendFailed -> "sendfailed")
              | None -> Some "pending")) (List.init !ncalls (fun i -> i)) in
           if rs = [] then "-" else String.concat " , " rs
       | "pending" -> string_of_int (List.length !st.n_pending)
